@@ -14,7 +14,7 @@
              state = clientConn.GetState()
              switch state {
              case connectivity.Ready: if conn == nil { conn = newConn(..); m.addConn(conn) }
-             case connectivity.Idle:  clientConn.Connect()
+             case connectivity.Idle:  if conn != nil { m.removeConn(conn.ID()); conn = nil }; clientConn.Connect()
              default:                 if conn != nil { m.removeConn(conn.ID()); conn = nil }
              }
              switch state { case connectivity.Shutdown: return }
@@ -111,9 +111,10 @@ Definition set_gor (m : mgr) (g : nat) (go : gor) : mgr :=
   mkMgr (m_targets m) (set_nth g go (m_gors m)) (m_conns m) (m_next m).
 
 (** the switch on the sampled state (first switch of the loop body, or the one before the loop).
-    [fx = false] is the code as it is.  [fx = true] is the proposed repair CONN-1 (fixes/CONN-1.patch): IDLE after READY
-    means the transport is gone - the Conn is removed there, before clientConn.Connect() starts the next attempt, instead
-    of waiting to see CONNECTING. *)
+    [fx = true] is the code as it is (since /repo ac94f55, fixes/CONN-1.patch): IDLE after READY means the transport is
+    gone - the Conn is removed there, before clientConn.Connect() starts the next attempt.  [fx = false] is the loop
+    before that repair, which left the Conn alone on IDLE and waited to see CONNECTING (kept for the regression witness
+    of finding F-CONN-1; the invariants are proved for both). *)
 Definition on_state (fx : bool) (m : mgr) (g : nat) (go : gor) (s : chan_state) : mgr * list out :=
   if g_started go then
     match s with
@@ -175,9 +176,12 @@ Fixpoint run_from (fx : bool) (m : mgr) (es : list event) : mgr * list out :=
   | e :: r => let '(m1, o1) := step fx m e in let '(m2, o2) := run_from fx m1 r in (m2, o1 ++ o2)
   end.
 
-(** the code as it is / with the repair, from the empty manager whose first connection id will be n0 *)
-Definition run (n0 : N) (es : list event) : mgr * list out := run_from false (init n0) es.
-Definition run_fixed (n0 : N) (es : list event) : mgr * list out := run_from true (init n0) es.
+(** [current]: the variant of the loop that is in /repo *)
+Definition current : bool := true.
+
+(** the code as it is / as it was before ac94f55, from the empty manager whose first connection id will be n0 *)
+Definition run (n0 : N) (es : list event) : mgr * list out := run_from current (init n0) es.
+Definition run_before_repair (n0 : N) (es : list event) : mgr * list out := run_from false (init n0) es.
 
 (** * Channel traces and what the goroutine can see of them *)
 
@@ -218,6 +222,11 @@ Fixpoint samples_of (g : nat) (es : list event) : list chan_state :=
   | ESample g' s :: r => if Nat.eqb g' g then s :: samples_of g r else samples_of g r
   | _ :: r => samples_of g r
   end.
+
+(** the samples at which the goroutine notices that the transport is gone: every state but READY (and, before the
+    repair, but IDLE) *)
+Definition loss_seen (fx : bool) (s : chan_state) : bool :=
+  match s with Ready => false | Idle => fx | _ => true end.
 
 (** * The trace as the manager's Watch shows it *)
 Definition is_conn_out (o : out) : bool :=
